@@ -711,3 +711,299 @@ func factCallTrueIdx(b *ssa.BasicBlock) []callIdx {
 	}
 	return out
 }
+
+// cellDef is one store that a load of a private memory cell can observe: the value stored and the block of the store.
+type cellDef struct {
+	store *ssa.Store
+	v     ssa.Value
+	b     *ssa.BasicBlock
+}
+
+// privateCellDefs: v is a load of a memory cell that is private to its function — a local Alloc, or one field of
+// a local struct Alloc, whose address is never captured, stored, handed to a call or used for anything but loads
+// and stores (`var subject struct{against interface{}; consumer bool}` with subject.consumer read and written in
+// place).  Such a cell is an ordinary local variable that go/ssa could not lift to registers.  Returned are all
+// the stores into the cell; zero reports that the load may also observe the zero value (some way from the
+// allocation to the load passes no store).  ok is false when v is not such a load.
+func privateCellDefs(v ssa.Value) (defs []cellDef, zero bool, ok bool) {
+	ld, isLd := v.(*ssa.UnOp)
+	if !isLd || ld.Op != token.MUL {
+		return nil, false, false
+	}
+	var al *ssa.Alloc
+	field := -1
+	switch a := ld.X.(type) {
+	case *ssa.Alloc:
+		al = a
+	case *ssa.FieldAddr:
+		x, isAl := a.X.(*ssa.Alloc)
+		if !isAl {
+			return nil, false, false
+		}
+		al, field = x, a.Field
+	default:
+		return nil, false, false
+	}
+	// addrOnlyLoadStore: the address value is used only to load from and to store into
+	addrOnlyLoadStore := func(addr ssa.Value) bool {
+		for _, r := range ssau.Referrers(addr) {
+			switch y := r.(type) {
+			case *ssa.DebugRef:
+			case *ssa.UnOp:
+				if y.Op != token.MUL {
+					return false
+				}
+			case *ssa.Store:
+				if y.Addr != addr || y.Val == addr {
+					return false
+				}
+			default:
+				return false
+			}
+		}
+		return true
+	}
+	for _, r := range ssau.Referrers(al) {
+		switch y := r.(type) {
+		case *ssa.DebugRef:
+		case *ssa.UnOp:
+			if y.Op != token.MUL {
+				return nil, false, false
+			}
+		case *ssa.Store:
+			if y.Addr != ssa.Value(al) || y.Val == ssa.Value(al) {
+				return nil, false, false
+			}
+			if field >= 0 {
+				return nil, false, false // the struct is overwritten as a whole
+			}
+			defs = append(defs, cellDef{y, y.Val, y.Block()})
+		case *ssa.FieldAddr:
+			if field < 0 {
+				return nil, false, false
+			}
+			if y.Field != field {
+				continue // the address of a sibling field is no way to this one
+			}
+			if !addrOnlyLoadStore(y) {
+				return nil, false, false
+			}
+			for _, r2 := range ssau.Referrers(y) {
+				if st, isSt := r2.(*ssa.Store); isSt {
+					defs = append(defs, cellDef{st, st.Val, st.Block()})
+				}
+			}
+		default:
+			return nil, false, false
+		}
+	}
+	// may the load see the zero value?
+	avoid := map[*ssa.BasicBlock]bool{}
+	covered := false
+	for _, d := range defs {
+		if d.b == ld.Block() && flow.InstrDominates(d.store, ld) {
+			covered = true
+		}
+		if d.b == al.Block() {
+			covered = true
+		}
+		avoid[d.b] = true
+	}
+	if !covered {
+		if avoid[ld.Block()] {
+			// a store later in the load's own block: the ways into the block count
+			delete(avoid, ld.Block())
+		}
+		zero = flow.Reachable(al.Block(), ld.Block(), avoid)
+	}
+	return defs, zero, true
+}
+
+// resolveThroughStructs is resolveThroughLocals that also looks through a field read of a struct VALUE that was
+// built locally and copied as a whole: `t.from` where t is the (value) receiver of a method used as a method value
+// on the literal `errorTransition{from: st}` resolves to st.
+func resolveThroughStructs(v ssa.Value, scope []*ssa.Function) []ssa.Value {
+	var out []ssa.Value
+	seen := map[ssa.Value]bool{}
+	var rec func(v ssa.Value, depth int)
+	// fieldOfValue: the values field #f of the struct value sv can hold (ok=false: not a locally built struct)
+	var fieldOfValue func(sv ssa.Value, f int, depth int) ([]ssa.Value, bool)
+	// fieldOfCell: the values field #f of the local struct variable al can hold
+	fieldOfCell := func(al *ssa.Alloc, f int, depth int) ([]ssa.Value, bool) {
+		var vals []ssa.Value
+		for _, r := range ssau.Referrers(al) {
+			switch y := r.(type) {
+			case *ssa.FieldAddr:
+				if y.Field != f {
+					continue
+				}
+				for _, r2 := range ssau.Referrers(y) {
+					if st, isSt := r2.(*ssa.Store); isSt && st.Addr == ssa.Value(y) {
+						vals = append(vals, st.Val)
+					}
+				}
+			case *ssa.Store:
+				if y.Addr != ssa.Value(al) {
+					continue
+				}
+				sub, ok := fieldOfValue(y.Val, f, depth+1)
+				if !ok {
+					return nil, false
+				}
+				vals = append(vals, sub...)
+			}
+		}
+		return vals, len(vals) > 0
+	}
+	fieldOfValue = func(sv ssa.Value, f int, depth int) ([]ssa.Value, bool) {
+		if depth > 6 {
+			return nil, false
+		}
+		var vals []ssa.Value
+		ds := deepDefs(sv, scope)
+		if len(ds) == 0 {
+			return nil, false
+		}
+		for _, d := range ds {
+			ld, isLd := d.(*ssa.UnOp)
+			if !isLd || ld.Op != token.MUL {
+				return nil, false
+			}
+			al, isAl := ld.X.(*ssa.Alloc)
+			if !isAl {
+				return nil, false
+			}
+			sub, ok := fieldOfCell(al, f, depth+1)
+			if !ok {
+				return nil, false
+			}
+			vals = append(vals, sub...)
+		}
+		return vals, true
+	}
+	rec = func(v ssa.Value, depth int) {
+		for _, d := range resolveThroughLocals(v, scope) {
+			if seen[d] {
+				continue
+			}
+			seen[d] = true
+			if depth > 6 {
+				out = append(out, d)
+				continue
+			}
+			var vals []ssa.Value
+			ok := false
+			switch x := d.(type) {
+			case *ssa.Field:
+				vals, ok = fieldOfValue(x.X, x.Field, 0)
+			case *ssa.UnOp:
+				// a field of a local struct variable that is only ever assigned as a whole (a spilled value parameter)
+				if fa, isFA := x.X.(*ssa.FieldAddr); isFA && x.Op == token.MUL {
+					if al, isAl := fa.X.(*ssa.Alloc); isAl {
+						vals, ok = fieldOfCell(al, fa.Field, 0)
+					}
+				}
+			}
+			if !ok {
+				out = append(out, d)
+				continue
+			}
+			for _, x := range vals {
+				rec(x, depth+1)
+			}
+		}
+	}
+	rec(v, 0)
+	return out
+}
+
+// confinedPointer: as far as its uses show, the object v points to does not outlive the activation that made it and
+// is not shared with anything that does: the pointer is only used to read and write fields, as an argument of
+// static in-repository calls whose parameter is used the same way, and as the receiver of a method value that is
+// only called.  (A per-call record such as `w := walker{ctx: ctx, ...}; step := w.step; for ... { step() }`.)
+func confinedPointer(v ssa.Value) bool {
+	seen := map[ssa.Value]bool{}
+	var rec func(v ssa.Value, depth int) bool
+	rec = func(v ssa.Value, depth int) bool {
+		if depth > 5 {
+			return false
+		}
+		if seen[v] {
+			return true
+		}
+		seen[v] = true
+		for _, r := range ssau.Referrers(v) {
+			switch y := r.(type) {
+			case *ssa.DebugRef:
+			case *ssa.FieldAddr:
+				for _, r2 := range ssau.Referrers(y) {
+					switch z := r2.(type) {
+					case *ssa.DebugRef:
+					case *ssa.UnOp:
+						if z.Op != token.MUL {
+							return false
+						}
+					case *ssa.Store:
+						if z.Addr != ssa.Value(y) || z.Val == ssa.Value(y) {
+							return false
+						}
+					default:
+						return false
+					}
+				}
+			case *ssa.Store:
+				if y.Val == v || y.Addr != v {
+					return false
+				}
+			case *ssa.Call:
+				h := y.Common().StaticCallee()
+				if h == nil || h.Blocks == nil || y.Common().Value == v {
+					return false
+				}
+				for i, a := range y.Common().Args {
+					if a != v {
+						continue
+					}
+					if i >= len(h.Params) || !rec(h.Params[i], depth+1) {
+						return false
+					}
+				}
+			case *ssa.MakeClosure:
+				w, isF := y.Fn.(*ssa.Function)
+				if !isF || w.Synthetic == "" || !strings.HasSuffix(w.Name(), "$bound") || len(y.Bindings) != 1 || y.Bindings[0] != v {
+					return false
+				}
+				// the method value is only called
+				for _, r2 := range ssau.Referrers(y) {
+					switch z := r2.(type) {
+					case *ssa.DebugRef:
+					case *ssa.Call:
+						if z.Common().Value != ssa.Value(y) {
+							return false
+						}
+					default:
+						return false
+					}
+				}
+				// and the method uses its receiver the same way
+				ok := false
+				ssau.Instrs(w, func(in ssa.Instruction) {
+					if cl, isC := in.(*ssa.Call); isC {
+						if m := cl.Common().StaticCallee(); m != nil && m.Blocks != nil && len(m.Params) > 0 && len(cl.Common().Args) > 0 {
+							if _, isFV := cl.Common().Args[0].(*ssa.FreeVar); isFV {
+								ok = rec(m.Params[0], depth+1)
+							}
+						}
+					}
+				})
+				if !ok {
+					return false
+				}
+			default:
+				return false
+			}
+		}
+		return true
+	}
+	return rec(v, 0)
+}
